@@ -264,6 +264,19 @@ unsafe impl Sync for Shared {}
 
 impl Drop for Shared {
     fn drop(&mut self) {
+        // Submit anything that was queued after the `Ring` itself was dropped,
+        // e.g. the closing of an `AsyncFd` that outlived it, nobody else will.
+        if self.unsubmitted_submissions() != 0 {
+            let flags = if self.kernel_thread {
+                libc::IORING_ENTER_SQ_WAIT
+            } else {
+                0
+            };
+            if let Err(err) = self.enter(0, flags, Some(Duration::ZERO)) {
+                log::warn!("error flushing submissions: {err}");
+            }
+        }
+
         let ptr = self.submissions.cast();
         let len = (self.submissions_len as usize) * size_of::<sq::Submission>();
         // NOTE: posioned in Shared::new.
